@@ -15,7 +15,7 @@ def keys(src, slot):
 base, err = keys(None, 0)
 assert base is not None, err
 q = queue.Queue()
-for s in range(4): q.put(s)
+for s in range(8): q.put(s)
 def job(e):
     s = q.get()
     d = '/tmp/oalverif-cat-%d' % s
@@ -36,7 +36,7 @@ def job(e):
         shutil.rmtree(d, ignore_errors=True)
         q.put(s)
 res = []
-with concurrent.futures.ThreadPoolExecutor(max_workers=4) as ex:
+with concurrent.futures.ThreadPoolExecutor(max_workers=8) as ex:
     for e, st, new, info in ex.map(job, cat):
         flagged = sorted(new)
         exp = e.get('properties', [])
